@@ -71,6 +71,16 @@ theorem c08_parent_releases_child_ends (c : Cfg) (s : AState) (rs : List SResp) 
   · left; right; simp [closedBy]
   · left; left; right; exact hf
 
+/-- **C08 (released before the wait for the child's exec, not after it).**  The parent's call sequence after a
+    successful fork is: everything up to the fork, then the closes of every child end, then the close of the status
+    write end, and only then the read of the launch-status channel -- which lasts for the child's whole pre-exec
+    phase.  While it waits there (and a spawn issued by another thread could fork), the child ends are gone. -/
+theorem c08_released_before_status_read (c : Cfg) (s : AState) (rs : List SResp) :
+    ∃ tail, (afterFork c s rs).calls =
+      s.calls ++ closeAll (ownedEnds c s.pipes) ++ [.close (statusW s), .readStatus (statusR s)] ++ tail := by
+  unfold afterFork
+  exact afterRead_prefix c s _ _
+
 /-! ### Non-vacuity (tests, labelled as tests) -/
 def cfgP : Cfg := { sin := .pipe, sout := .none, serr := .none, detached := false, cwd := false, uid := none, gid := none,
                     pgid := false, argvEmpty := false, nul := false, ncand := 1 }
